@@ -470,6 +470,51 @@ class LockAnalysis:
         unmark_closures(fn)
         return m
 
+    def regions_on_a_path(self, cname, fn):
+        """the largest number of SEPARATE outermost lock regions one execution of `fn` can pass through (branches of
+        an `if` are alternatives, a region inside a loop counts twice): two regions in one call are two separately
+        atomic pieces - check-then-act - even if every single reference is under the lock"""
+        aliases = self._lock_aliases(fn)
+
+        def delegating(st):
+            # an expression / return / assignment statement that calls a self-locking private helper
+            if not isinstance(st, (ast.Expr, ast.Return, ast.Assign, ast.AugAssign, ast.AnnAssign)):
+                return 0
+            k = 0
+            for n in ast.walk(st):
+                if isinstance(n, ast.Call) and isinstance(n.func, ast.Attribute) and _is_self(n.func.value) \
+                        and self._private(n.func.attr):
+                    hc, h = self.resolve(cname, n.func.attr)
+                    if h is not None and h is not fn and self.self_locking(cname, h):
+                        k += 1
+            return k
+
+        def seq(body):
+            total, i = 0, 0
+            while i < len(body):
+                st = body[i]
+                if isinstance(st, ast.With) and any(self._is_lock(it.context_expr, aliases) for it in st.items):
+                    total += 1
+                elif self._lock_call(st, 'acquire', aliases) and i + 1 < len(body) and isinstance(body[i + 1], ast.Try):
+                    total += 1
+                    i += 1
+                elif isinstance(st, ast.If):
+                    total += max(seq(st.body), seq(st.orelse))
+                elif isinstance(st, (ast.For, ast.While, ast.AsyncFor)):
+                    total += 2 * seq(st.body) + seq(st.orelse)
+                elif isinstance(st, ast.Try):
+                    total += seq(st.body) + max([seq(h.body) for h in st.handlers] + [seq(st.orelse)]) + \
+                        seq(st.finalbody)
+                elif isinstance(st, ast.With):
+                    total += seq(st.body)
+                else:
+                    total += delegating(st)
+                i += 1
+            return total
+        if any(isinstance(d, ast.Name) and d.id in self.locking_decorators for d in fn.decorator_list):
+            return 1
+        return seq(fn.body)
+
     def _param_only_in_region(self, cname, h, pname):
         m = self.lockmap(cname, h)
         return all(id(n) in m['locked'] for n in ast.walk(h) if isinstance(n, ast.Name) and n.id == pname
@@ -668,6 +713,11 @@ class LockAnalysis:
                         and not any(n is t for t, _ in touch):
                     refs.append(('self.%s (self-locking helper)' % n.attr, True, False, True, False))
             refs += [(w, False, True, lk, lp) for w, lk, lp in self._oprefs.get((cname, id(fn)), [])]
+            # every lock region after the first on one path is one more separately atomic piece of the call
+            extra = max(0, self.regions_on_a_path(cname, fn) - 1)
+            refs += [('lock region no. %d on one path' % (i + 2), False, True, False, False) for i in range(extra)]
+            nops += extra
+            why += ['%d separate lock regions on one path' % (extra + 1)] * bool(extra)
             rows.append({'cls': cname, 'name': name, 'touches': coarse, 'refs': refs, 'irregular': m['irregular'],
                          'locked': region and not outside and not m['irregular'], 'region': region, 'form': form,
                          'outside_ops': nops, 'outside_touch': outside, 'outside_why': why})
@@ -917,9 +967,9 @@ class C03(Property):
                     'progs': [[['eq', [[1, 0], [2, 5]]]], [['update', [[1, 5], [2, 5]]]]]}),
         ('__eq__', {'cls': 'LRI', 'max': 3, 'on_miss': False, 'init': [[1, 0], [2, 0], [3, 0]], 'vals': 'obj', 'keys': 'obj',
                     'progs': [[['eqc', [[1, 0], [2, 0], [3, 4]]]], [['updated', [[1, 4], [2, 4], [3, 4]]]]]}),
-        ('__eq__', {'cls': 'LRI', 'max': 2, 'on_miss': False, 'init': [[1, 0], [2, 0]], 'keys': 'obj',
+        ('__ne__', {'cls': 'LRI', 'max': 2, 'on_miss': False, 'init': [[1, 0], [2, 0]], 'keys': 'obj',
                     'progs': [[['ne', [[1, 0], [2, 5]]]], [['updatec', [[1, 5], [2, 5]]]]]}),
-        ('__eq__', {'cls': 'LRU', 'max': 3, 'on_miss': False, 'init': [[1, 0], [2, 0], [3, 0]], 'vals': 'obj', 'keys': 'strobj',
+        ('__ne__', {'cls': 'LRU', 'max': 3, 'on_miss': False, 'init': [[1, 0], [2, 0], [3, 0]], 'vals': 'obj', 'keys': 'strobj',
                     'progs': [[['nec', [[1, 0], [2, 7], [3, 7]]]], [['updatek', [[2, 7]], [[1, 7], [3, 7]]]]]}),
         # keys with a Python-level __hash__ / __eq__ under the ordinary item operations (every lookup is pre-emptible)
         ('__setitem__', {'cls': 'LRU', 'max': 2, 'on_miss': False, 'init': [[1, 0], [2, 0]], 'keys': 'obj',
@@ -1101,7 +1151,7 @@ class C03(Property):
             self.stats['directed_at'] = ['%s.%s' % f for f in flagged]
             self.stats['directed_statements'] = {'%s.%s' % k: [list(x) for x in v]
                                                  for k, v in (getattr(self, '_hints', None) or {}).items()}
-            names = {n for _c, n in flagged} | ({'__eq__'} if any(n == '__ne__' for _c, n in flagged) else set())
+            names = {n for _c, n in flagged} | ({'__ne__'} if any(n == '__eq__' for _c, n in flagged) else set())
             # first the hand-written adversarial programs of exactly the rejected methods, then the generated ones in
             # the call forms that reach the statements the translator found outside the lock (boundary size only)
             yield from self.adversarial_cases(only=names)
